@@ -15,7 +15,9 @@ INVARIANT SharesInUnitInterval
 INVARIANT GsnrIdentity
 INVARIANT MuxDemuxLossless
 INVARIANT SourceIsWhole
+INVARIANT TwinAsLaunched
 PROPERTY MCSourceUntouched
+PROPERTY MCTwinUntouched
 PROPERTY MCDemuxMuxKeepLedger
 PROPERTY MCKeepsOsnr
 PROPERTY MCKeepsNli
